@@ -3,7 +3,7 @@ from harness.common import Report, import_hpl, rng, tier
 from harness.drive import call_parser
 from harness.rewrite_driver import Recorder, corrupt_first, derived_pass, family_texts, parse_inputs
 
-FAMS = ['slots', 'bool1w', 'quants', 'incl', 'alias']
+FAMS = ['slots', 'bool1w', 'quants', 'incl', 'alias', 'barealias']
 
 
 def canary(events):
@@ -36,8 +36,11 @@ def run(replay=None):
         assert o == 'ast', (t, o)
         pool.append((t, obj))
     used = []
+    always = []          # inputs whose interesting behaviour only shows on derived copies: always part of the derived pass
     for fam, text, entry, obj in parse_inputs(texts, ('expression', 'condition')):
         used.append((text, obj))
+        if fam == 'barealias':
+            always.append((text, obj))
         if entry == 'condition':
             rec.negate(text, obj)
             for qt, q in pool:
@@ -64,7 +67,8 @@ def run(replay=None):
         rec.replace(text, obj, True, 'M')
         rec.replace(text, obj, False, 'A')
         rec.replace(text, obj, False, 'M')
-    rep.count('derived_after_use', derived_pass(used, again, rnd, 600 if thorough else 150, prepare=again))
+    rep.count('derived_after_use', derived_pass(used, again, rnd, 600 if thorough else 150, prepare=again)
+              + derived_pass(always, again, rnd, len(always) + 1))
     for i, clause in rec.validate(canary):
         inf = rec.info[i]
         rep.violation('%s|%s|%s' % (clause, inf['op'], inf['text']), '%s(%r) -> %s violates %s' % (inf['op'], inf['text'], inf['result'] or inf['out'], clause), inf)
